@@ -248,13 +248,31 @@ TRANSPARENT_SUFFIX = (
 )
 
 
+ALLOWED_TRAITS = ("std::ops::Deref", "std::ops::DerefMut", "std::clone::Clone", "std::convert::AsRef", "std::convert::AsMut",
+                  "std::borrow::Borrow", "std::borrow::BorrowMut", "std::convert::Into", "std::convert::From", "std::ops::Try",
+                  "std::ops::FromResidual", "std::iter::IntoIterator", "std::borrow::ToOwned", "std::ops::Residual")
+
+
 def is_transparent(name):
+    """value-preserving wrappers: the result 'is' (a view of / a copy of / the payload of) the first argument"""
     if not name:
         return False
-    for s in TRANSPARENT_SUFFIX:
-        if name.endswith(s):
-            # only std / core / well-known wrappers: local `clone` impls of handle types are Arc clones
-            return True
+    if not any(name.endswith(s) for s in TRANSPARENT_SUFFIX):
+        return False
+    if name.startswith("<"):
+        # <Self as Trait>::method  — only the std conversion / deref / clone traits
+        try:
+            trait = name[1:name.rindex(">::")].rsplit(" as ", 1)[1]
+        except (ValueError, IndexError):
+            return False
+        trait = trait.split("<")[0]
+        return trait in ALLOWED_TRAITS
+    if name.startswith(("std::", "core::", "alloc::")):
+        return True
+    if " for " in name and "impl " in name:
+        # inherent-looking path of a trait impl in another crate: lsm_tree::slice::<impl std::ops::Deref for Slice>::deref
+        tr = name[name.index("impl ") + 5:name.index(" for ")].split("<")[0]
+        return tr in ALLOWED_TRAITS
     return False
 
 
@@ -1166,3 +1184,24 @@ def variants_in(t, enum_suffix):
             if enum.endswith(enum_suffix):
                 out.add(var)
     return out
+
+
+def tkey(t, depth=0):
+    """like tstr but call terms carry their call site: two terms with equal keys denote the same dynamic value
+    (same definition site), not merely the same expression shape"""
+    if depth > 14:
+        return "…"
+    k = t.k
+    if k == "call":
+        return "%s@%s(%s)" % (t.a[0], t.site, ",".join(tkey(x, depth + 1) for x in t.a[1]))
+    if k == "field":
+        return "%s.%s" % (tkey(t.a[0], depth + 1), t.a[1])
+    if k == "downcast":
+        return "(%s as %s)" % (tkey(t.a[0], depth + 1), t.a[1])
+    if k == "phi":
+        return "phi[%s]" % "|".join(sorted(tkey(x, depth + 1) for x in t.a))
+    if k in ("agg", "closure"):
+        return "%s@%s{%s}" % (t.a[0], t.site, ",".join("%s:%s" % (n, tkey(x, depth + 1)) for n, x in t.a[1]))
+    if k == "bin":
+        return "%s@%s(%s,%s)" % (t.a[0], t.site, tkey(t.a[1], depth + 1), tkey(t.a[2], depth + 1))
+    return tstr(t, depth)
